@@ -503,7 +503,7 @@ def _instance_range(db, chk, m):
                 return True
             return NotImplemented
         I = Interp(db, call_hook=hook)
-        runs = [r for r in I.explore(ref, lambda I: {"cls": Obj("cls"), "t": Obj("t", attrs={"symbol_table": Obj("symtab")}), "rank": T.P("rank"), "annotation": "ANNOT", "instance_id": inst}) if r.raised is None]
+        runs = [r for r in I.explore(ref, lambda I: {"cls": Obj("cls", cls=(m, "CriticalPathAnalysis")), "t": Obj("t", attrs={"symbol_table": Obj("symtab")}), "rank": T.P("rank"), "annotation": "ANNOT", "instance_id": inst}) if r.raised is None]
         got = set()
         for r in runs:
             for e in r.events:
@@ -540,7 +540,7 @@ def _window(db, chk, m):
         return NotImplemented
 
     I = Interp(db, call_hook=hook)
-    runs = [r for r in I.explore(ref, lambda I: {"cls": Obj("cls"), "t": Obj("t", attrs={"symbol_table": Obj("symtab")}), "rank": T.P("rank"), "annotation": "ANNOT", "instance_id": 0}) if r.raised is None]
+    runs = [r for r in I.explore(ref, lambda I: {"cls": Obj("cls", cls=(m, "CriticalPathAnalysis")), "t": Obj("t", attrs={"symbol_table": Obj("symtab")}), "rank": T.P("rank"), "annotation": "ANNOT", "instance_id": 0}) if r.raised is None]
     chk.analysed_add("functions", ref)
     runs = [r for r in runs if built]
     if len(runs) != 1:
